@@ -1,5 +1,7 @@
 from typing import Optional
 
+from exactly_lib.common.report_rendering import text_docs
+from exactly_lib.common.report_rendering.text_doc import TextRenderer
 from exactly_lib.impls.instructions.multi_phase.utils import instruction_embryo as embryo
 from exactly_lib.impls.instructions.multi_phase.utils.instruction_embryo import InstructionEmbryo
 from exactly_lib.impls.instructions.multi_phase.utils.instruction_part_utils import PartsParserFromEmbryoParser, \
@@ -19,7 +21,7 @@ from . import defs, impl as _impl
 class EmbryoParser(embryo.InstructionEmbryoParserFromTokensWoFileSystemLocationInfo[None]):
     def __init__(self):
         self._int_parser = parse_integer.MandatoryIntegerParser(
-            parse_integer.validator_for_non_negative,
+            _validator_of_timeout_value,
         )
         self._none_token_matcher = token_matchers.is_unquoted_and_equals(defs.NONE_TOKEN)
 
@@ -40,6 +42,18 @@ class EmbryoParser(embryo.InstructionEmbryoParserFromTokensWoFileSystemLocationI
             return None
         else:
             return self._int_parser.parse(token_parser)
+
+
+def _validator_of_timeout_value(actual: int) -> Optional[TextRenderer]:
+    mb_error = parse_integer.validator_for_non_negative(actual)
+    if mb_error is not None:
+        return mb_error
+    try:
+        # The timeout is given to the OS as a floating point number of seconds
+        float(actual)
+    except OverflowError:
+        return text_docs.single_line('The timeout is too large: an integer of {} bits'.format(actual.bit_length()))
+    return None
 
 
 PARTS_PARSER = PartsParserFromEmbryoParser(
